@@ -84,8 +84,12 @@ def replay_file(path):
     work = tempfile.mkdtemp(prefix='replay', dir=os.path.join(VERIF, 'build') if os.path.isdir(os.path.join(VERIF, 'build')) else None)
     try:
         props.prepare(work)
-        exe = finders.build_oracle(work)
-        res = finders.native_replay(exe, rec['oracle_kind'], rec['input_hex'], rec.get('oracle_args', []))
+        if rec.get('oracle_kind') == 'cli':
+            rc, out, err, _ = finders.sh(['python3', os.path.join(VERIF, 'replay', 'cli_oracle.py'), 'replay', finders.REPO, work, rec['input_hex']], timeout=300)
+            res = dict(disagree=(rc == 1), output=out.strip().split('\n')[-2:], exit=rc)
+        else:
+            exe = finders.build_oracle(work)
+            res = finders.native_replay(exe, rec['oracle_kind'], rec['input_hex'], rec.get('oracle_args', []))
     finally:
         shutil.rmtree(work, ignore_errors=True)
     print(json.dumps(res))
